@@ -231,7 +231,8 @@ def scalar_value(kind, n):
     return n % hi + 1 if hi < 1000 else n + 1
 
 
-EXT_STR = ["", "1234567", "12345678", "123456789", "hé", "€ß", "\U0001f600x", "a" * 15, "b" * 16]
+# multi-byte text whose BYTE length crosses a slot boundary that its CHARACTER count does not (and vice versa)
+EXT_STR = ["", "1234567", "12345678", "123456789", "hé", "€ß", "\U0001f600x", "a" * 15, "b" * 16, "é" * 8, "€" * 5, "\U0001f600" * 4 + "xyz"]
 EXT_F = {"f32": [float("inf"), float("-inf"), float("nan"), -0.0, 1.401298464324817e-45, 3.4028234663852886e38],
          "f64": [float("inf"), float("-inf"), float("nan"), -0.0, 5e-324, 1.7976931348623157e308]}
 
